@@ -431,7 +431,23 @@ func replayKnown() {
 func Main(m *testing.M, prop string) {
 	Property = prop
 	loadKnown(prop)
-	replayKnown()
+	if os.Getenv("VERIF_KNOWN_PROBE") == "1" {
+		// probe mode (started once per check by the driver): replay the recorded witnesses with all
+		// matchers off, report which still fail, run no test
+		replayKnown()
+		st.Property = prop
+		write()
+		os.Exit(0)
+	}
+	if ids, ok := os.LookupEnv("VERIF_KNOWN_ENABLED"); ok {
+		for _, id := range strings.Split(ids, ",") {
+			if id != "" {
+				enabled[id] = true
+			}
+		}
+	} else {
+		replayKnown()
+	}
 	st.Property, st.Tier, st.Seed, st.Shard = prop, Tier(), Seed(), Shard()
 	code := m.Run()
 	write()
